@@ -329,6 +329,9 @@ func runShard(st *shardState, id, tier, build string, seed uint64, shard, stride
 		}
 		stderrB, _ := os.ReadFile(errf)
 		stderr := string(stderrB)
+		if ee, ok := werr.(*exec.ExitError); ok && build == "race" && ee.ExitCode() == 66 && lastB.I == lastE {
+			werr = nil // the race detector's exit code after a completed shard; its reports were collected above
+		}
 		if werr == nil && !timedOut {
 			os.Remove(outf)
 			os.Remove(errf)
